@@ -169,6 +169,19 @@ def setup():
     return 0
 
 
+def _fault_table(stats):
+    """reach probe: {operation: {fault kind: count}} for faults that reached the caller"""
+    t = {}
+    for k, v in stats.items():
+        if k.startswith("fo_"):
+            for ev in D.EV_KINDS:
+                if k.endswith("_" + ev):
+                    op = k[3:-(len(ev) + 1)]
+                    t.setdefault(op, {})[ev] = int(v)
+                    break
+    return t
+
+
 def finish(prop, tier, seed, t0, agg, extra_cov, mine, unknown_paths, known_lines, machinery_error):
     stats = agg["stats"]
     wall = time.time() - t0
@@ -185,6 +198,8 @@ def finish(prop, tier, seed, t0, agg, extra_cov, mine, unknown_paths, known_line
         steals_checked=int(stats.get("steals", 0)),
         faults={k: dict(armed=int(stats.get("armed_" + k, 0)), fired=int(stats.get("fired_" + k, 0)),
                         events_seen=int(stats.get("events_" + k, 0))) for k in D.EV_KINDS},
+        operations_by_kind={k[3:]: int(v) for k, v in sorted(stats.items()) if k.startswith("op_")},
+        faults_reaching_caller_by_operation=_fault_table(stats),
         foreign_violations=agg["foreign"],
         worker_crashes=agg["crashes"],
         seeds_per_hour=int(stats.get("runs", 0) * 3600 / wall) if wall > 0 else 0,
